@@ -146,10 +146,20 @@ func buildStore(ctx context.Context, gs []GraphData) storage.Store {
 	return st
 }
 
+// execSeq counts the statements executed over a shared store within one case (reset by the harness per case).
+var execSeq int
+
 // execStatement runs text through the server.BQL pipeline inside a simulated
 // run over the simulated driver.
 func execStatement(t *testing.T, gs []GraphData, text string, k ExecKnobs, faults []FaultSpec, inner storage.Store) *execResult {
 	er := &execResult{}
+	// blank node ids are a function of the statement, its knobs and (for histories over one store) its position
+	seqKey := 0
+	if inner != nil {
+		execSeq++
+		seqKey = execSeq
+	}
+	ownBlankNodes(fmt.Sprint(text, k.Sched, seqKey))
 	tape := sim.NewTape(k.Sched)
 	sim.SetMapSeed(k.Sched | 1)
 	sim.SetProcs(k.Procs)
